@@ -72,6 +72,12 @@ func Build(rule Rule) (WireFormat, error) {
 				return nil, fmt.Errorf("failed to add syscall '%v': %w", syscall, err)
 			}
 		}
+		// Like auditctl, "all" selects every syscall wherever it stands in the list.
+		for _, syscall := range v.Syscalls {
+			if syscall == "all" {
+				data.allSyscalls = true
+			}
+		}
 
 		if err = addKeys(data, v.Keys); err != nil {
 			return nil, err
